@@ -103,6 +103,7 @@ type Enc struct {
 	axiomMemo map[string]bool
 	atOrd     map[string]int
 	atOrdPat  map[string]int
+	callKeys  map[string]string
 }
 
 func (w *World) tagFor(name string) int {
